@@ -91,6 +91,9 @@ func roundTripStat(s *Stat) {
 	err = t.UnmarshalVT(enc)
 	v.Assert(err == nil, "Stat.UnmarshalVT accepts the encoding")
 	v.Assert(statFieldsEqual(s, &t), "Stat round trip preserves every field")
+	for _, val := range t.Xattrs {
+		v.Assert(!v.Overlaps(val, enc), "decoded xattr value does not alias the input buffer")
+	}
 	v.Assert(s.EqualVT(&t) && statFieldsEqual(s, s.CloneVT()), "EqualVT and CloneVT agree with field equality")
 }
 
